@@ -817,3 +817,159 @@ Lemma ws_equal_lines_may_parse_differently :
 Proof.
   exists "    X:   5  m", "    X:   5 m". split; [reflexivity | vm_compute; discriminate].
 Qed.
+
+(* ------------------------------------------------------------------ equal-sign fields *)
+
+Lemma split_step : forall sep c r,
+  split_from sep 0 (String c r) =
+  if prefixb sep (String c r) then "" :: split_from sep (String.length sep - 1) r
+  else cons_head c (split_from sep 0 r).
+Proof. reflexivity. Qed.
+
+Lemma split_skip : forall sep x s, split_from sep (String.length x) (x ++ s) = split_from sep 0 s.
+Proof. induction x; simpl; intros; [reflexivity | apply IHx]. Qed.
+
+Lemma split_no_occurrence : forall sep s, contains sep s = false -> split_from sep 0 s = [s].
+Proof.
+  induction s; intros H; [reflexivity |].
+  apply contains_false_inv in H. destruct H as [H1 H2].
+  rewrite split_step, H1, (IHs H2). reflexivity.
+Qed.
+
+Lemma split_hit : forall a o s,
+  split_from (String a o) 0 (String a o ++ s) = "" :: split_from (String a o) 0 s.
+Proof.
+  intros. change (String a o ++ s) with (String a (o ++ s)). rewrite split_step.
+  change (String a (o ++ s)) with (String a o ++ s). rewrite prefixb_app.
+  replace (String.length (String a o) - 1)%nat with (String.length o) by (simpl; lia).
+  now rewrite split_skip.
+Qed.
+
+Lemma three_blanks : forall j x, exists y, spaces (S j) ++ String SPc (String SPc x) = String SPc (String SPc (String SPc y)).
+Proof. intros [|[|j]] x; simpl; eauto. Qed.
+
+Lemma split_leading_spaces : forall a m n rest, a <> SPc ->
+  let sep := String SPc (String SPc (String a m)) in
+  split_from sep 0 (spaces n ++ sep ++ rest) = spaces n :: split_from sep 0 rest.
+Proof.
+  intros a m n rest Ha sep. induction n.
+  - change (spaces 0 ++ sep ++ rest) with (sep ++ rest). unfold sep. rewrite split_hit. reflexivity.
+  - destruct (three_blanks n (String a m ++ rest)) as [y Hy].
+    assert (E : spaces (S n) ++ sep ++ rest = String SPc (String SPc (String SPc y))) by (unfold sep; simpl in *; exact Hy).
+    change (spaces (S n) ++ sep ++ rest) with (String SPc (spaces n ++ sep ++ rest)) in *.
+    rewrite split_step. rewrite E.
+    assert (F : prefixb sep (String SPc (String SPc (String SPc y))) = false).
+    { unfold sep. simpl. destruct (Ascii.eqb a SPc) eqn:Q; [apply Ascii.eqb_eq in Q; contradiction | reflexivity]. }
+    rewrite F, IHn. reflexivity.
+Qed.
+
+(* a printed 'label = value' line is read back as the text after the equal sign, up to the end of line *)
+Lemma eq_roundtrip : forall name v n,
+  head_not_space name ->
+  all_chars (fun c => negb (Ascii.eqb c NLc)) v = true ->
+  contains (eq_marker name) (v ++ NL) = false ->
+  eq_of_line (eq_marker name) (spaces n ++ eq_marker name ++ v ++ NL) = MR (MStr v) None.
+Proof.
+  intros name v n Hn Hv Hc. unfold eq_of_line, split_str.
+  destruct name as [|a m]; [contradiction |]. simpl in Hn.
+  unfold eq_marker in *. change ("  " ++ String a m ++ " = ") with (String SPc (String SPc (String a (m ++ " = ")))) in *.
+  rewrite split_leading_spaces by assumption. simpl nth.
+  rewrite split_no_occurrence by assumption. simpl nth.
+  rewrite remove_char_app, (remove_char_absent _ _ Hv). simpl. now rewrite app_nil_r_s.
+Qed.
+
+Lemma eq_marker_finds_line : forall name v n,
+  contains (eq_marker name) (spaces n ++ eq_marker name ++ v) = true.
+Proof. intros. apply contains_mid. Qed.
+
+(* ------------------------------------------------------------------ rows of the two production profiles *)
+
+Lemma resplit1_step : forall c r,
+  resplit1 (String c r) =
+  if is_ws c then
+    match r with
+    | String d _ => if is_ws d then resplit1 r else "" :: resplit1 r
+    | "" => "" :: resplit1 r
+    end
+  else cons_head c (resplit1 r).
+Proof. reflexivity. Qed.
+
+Lemma resplit1_nonempty : forall s, exists h t, resplit1 s = h :: t.
+Proof.
+  induction s; [simpl; eauto |]. rewrite resplit1_step. destruct IHs as (h & t & E).
+  destruct (is_ws a).
+  - destruct s; [eauto |]. destruct (is_ws a0); eauto.
+  - rewrite E. simpl. eauto.
+Qed.
+
+(* a blank run in front of a figure opens a new (so far empty) piece *)
+Lemma resplit1_blanks : forall w c r, all_ws w = true -> w <> "" -> is_ws c = false ->
+  resplit1 (w ++ String c r) = "" :: resplit1 (String c r).
+Proof.
+  induction w; intros c r H Hne Hc; [contradiction |].
+  simpl in H. apply andb_true_iff in H. destruct H as [H1 H2].
+  change (String a w ++ String c r) with (String a (w ++ String c r)). rewrite resplit1_step, H1.
+  destruct w as [|b w'].
+  - change ("" ++ String c r) with (String c r). cbv iota. now rewrite Hc.
+  - assert (Hb : is_ws b = true) by (simpl in H2; apply andb_true_iff in H2; tauto).
+    change (String b w' ++ String c r) with (String b (w' ++ String c r)). cbv iota. rewrite Hb.
+    change (String b (w' ++ String c r)) with (String b w' ++ String c r).
+    apply IHw; [assumption | discriminate | assumption].
+Qed.
+
+Lemma resplit1_token : forall t rest, ws_free t = true ->
+  resplit1 (t ++ rest) = (t ++ hd "" (resplit1 rest)) :: tl (resplit1 rest).
+Proof.
+  induction t; intros rest H.
+  - simpl. destruct (resplit1_nonempty rest) as (h & tl0 & ->). reflexivity.
+  - simpl in H. apply andb_true_iff in H. destruct H as [H1 H2]. apply negb_true_iff in H1.
+    change (String a t ++ rest) with (String a (t ++ rest)). rewrite resplit1_step, H1, (IHt rest H2). reflexivity.
+Qed.
+
+(* cells of a production-profile row: like cells_ok, and nothing after the last figure *)
+Fixpoint cells_end (cells : list (string * string)) : bool :=
+  match cells with
+  | [] => false
+  | [(_, s)] => is_empty s
+  | _ :: r => cells_end r
+  end.
+
+Lemma resplit1_row : forall cells lead,
+  all_ws lead = true -> lead <> "" -> cells_ok cells = true -> cells_end cells = true ->
+  resplit1 (render_row lead cells) = "" :: map fst cells.
+Proof.
+  induction cells as [|[t s] r IH]; intros lead Hl Hne Hc He; [discriminate |].
+  simpl in Hc.
+  apply andb_true_iff in Hc. destruct Hc as [Hc Hr]. apply andb_true_iff in Hc. destruct Hc as [Hc Hs2].
+  apply andb_true_iff in Hc. destruct Hc as [Hc Hs]. apply andb_true_iff in Hc. destruct Hc as [Ht Htn].
+  destruct (ws_free_head t Ht) as (c & r0 & -> & Hcw); [destruct t; [discriminate | discriminate] |].
+  simpl render_row. change (String c r0 ++ render_row s r) with (String c (r0 ++ render_row s r)).
+  rewrite resplit1_blanks by assumption. f_equal.
+  change (String c (r0 ++ render_row s r)) with (String c r0 ++ render_row s r).
+  rewrite resplit1_token by assumption.
+  destruct r as [|p r'].
+  - simpl in He. destruct s; [| discriminate]. simpl. now rewrite app_nil_r_s.
+  - rewrite IH; auto.
+    + simpl. now rewrite app_nil_r_s.
+    + destruct s; [discriminate | discriminate].
+Qed.
+
+Definition prow_ok (r : row) : bool :=
+  all_ws (fst r) && negb (is_empty (fst r)) && cells_ok (snd r) && cells_end (snd r).
+
+(* the rows of the HEATING/COOLING/ELECTRICITY profiles: every printed row with at least two figures comes
+   back, in order, figure by figure *)
+Lemma data_rows_rendered : forall (rows : list row),
+  (forall r, In r rows -> prow_ok r = true /\ (2 <= List.length (snd r))%nat) ->
+  data_rows (map render rows) = map (fun r => map parse_number (row_tokens r)) rows.
+Proof.
+  intros rows H. unfold data_rows. rewrite map_map.
+  assert (E : map (fun x => tl (resplit1 (render x))) rows = map row_tokens rows).
+  { apply map_ext_in. intros r Hr. destruct (H r Hr) as [Hok _]. unfold prow_ok in Hok.
+    apply andb_true_iff in Hok. destruct Hok as [Hok He]. apply andb_true_iff in Hok. destruct Hok as [Hok Hc].
+    apply andb_true_iff in Hok. destruct Hok as [Hl Hn].
+    unfold render. rewrite resplit1_row; auto. destruct (fst r); [discriminate | discriminate]. }
+  rewrite E. rewrite filter_all; [now rewrite map_map |].
+  intros x Hx. apply in_map_iff in Hx. destruct Hx as (r & <- & Hr). destruct (H r Hr) as [_ Hl].
+  unfold row_tokens. rewrite map_length. apply Nat.ltb_lt. lia.
+Qed.
